@@ -135,10 +135,20 @@ class MethodView:
                 continue
             if e.raw.get("trait") == "core::iter::traits::iterator::Iterator":
                 continue
+            if nm == "into_iter" and (e.raw.get("r") or "").startswith("<I as core::iter::traits::collect::IntoIterator>"):
+                continue   # `into_iter()` of something that already is an iterator (the blanket impl): the identity
+            if nm == "into_iter" and e.raw.get("args"):
+                # `for x in &self.field` iterates a shared borrow: only an owned value or a `&mut` can be drained / changed through it
+                a0 = e.raw["args"][0].get("m") or e.raw["args"][0].get("c")
+                ty0 = e.frame.body.local_ty(a0["l"]) if (a0 and not a0["p"] and e.frame is not None) else ""
+                if ty0.startswith("&") and not ty0.startswith("&mut"):
+                    continue
             rp = self.receiver_path(e)
             if rp is None:
                 # receiver derived from a call on the field, e.g. buckets.entry(k).or_default().proofs.push(..)
                 base = e.args[0]
+                if (P.call_name(P.norm(base)) or "").endswith(("Vec::<T>::new", "Vec::<T>::with_capacity", "::with_capacity", "String::new")):
+                    continue   # a fresh local container (its capacity may be computed from the field; that is a read)
                 for s in T.walk(base):
                     pp = P.param_path(s) if isinstance(s, tuple) and s and s[0] in ("fld", "param") else None
                     if pp and (pp == "self." + field_prefix or pp.startswith("self." + field_prefix + ".") or pp.startswith("self." + field_prefix + "[")):
@@ -248,6 +258,13 @@ class MethodView:
             if fw is True and nm.endswith("::any") and len(inner[4]) == 2 and isinstance(inner[4][1], tuple) and inner[4][1][0] == "closure":
                 coll = P.norm(inner[4][0])
                 out.append((g, coll, self._predicate(inner[4][1], coll, inner[1])))
+                continue
+            if fw is False and nm.endswith("::all") and len(inner[4]) == 2 and isinstance(inner[4][1], tuple) and inner[4][1][0] == "closure":
+                # `ensure!(c.iter().all(|x| !p(x)))` fails iff some element satisfies p
+                coll = P.norm(inner[4][0])
+                pr = self._predicate(inner[4][1], coll, inner[1])
+                pr = pr[2] if (isinstance(pr, tuple) and len(pr) == 3 and pr[0] == "un" and pr[1] == "Not") else ("un", "Not", pr)
+                out.append((g, coll, P.norm(pr)))
                 continue
             if fw is True:
                 loops = [x[1] for x in self.fr.ctrl_of_block(g["bb"]) if x[0] == "loop" and tuple(x[2]) == ("1",)]
